@@ -91,6 +91,27 @@ func main() {
 		os.Exit(cmdCommute(os.Args[2:]))
 	case "invert-if-else":
 		os.Exit(cmdInvert(os.Args[2:]))
+	case "fix-regression":
+		// fix-regression <Cnn>…: the regression self-test of the thorough tier on its own
+		exe, _ := os.Executable()
+		repo := os.Getenv("HTS_REPO")
+		if repo == "" {
+			repo = "/repo"
+		}
+		bad := 0
+		for _, id := range os.Args[2:] {
+			sum, res := fixRegression(exe, verifRoot(), repo, id)
+			fmt.Printf("%s: %s\n", id, sum)
+			for _, r := range res {
+				if r.Outcome != "redetected" {
+					bad++
+					fmt.Printf("  %s: %s~1 (rules named: %s) %s\n", r.Outcome, r.Commit, r.Rules, r.Reported)
+				}
+			}
+		}
+		if bad > 0 {
+			os.Exit(1)
+		}
 	default:
 		usage()
 	}
